@@ -68,7 +68,7 @@ pub fn run(ctx: &Ctx) -> i32 {
         return finish(ctx, &mon, Spec::new("exploration", "multi-thread stress only (sanitizer sub-run)").need("stress_publishes", 100));
     }
     // ---- exhaustive, bounded preemptions, two publishes
-    let n_scn = ctx.tier.pick(16, 64);
+    let n_scn = ctx.tier.pick(16, 128);
     let bound = ctx.tier.pick(1, 2);
     par_cases(ctx, &mon, "dfs2", n_scn, |cc, rng, l| {
         let scn = Scn::random(rng, 2);
@@ -95,7 +95,7 @@ pub fn run(ctx: &Ctx) -> i32 {
         }
     });
     // ---- random + PCT schedules, two and three publishes
-    let n_rand = ctx.tier.pick(160, 1600);
+    let n_rand = ctx.tier.pick(160, 4000);
     par_cases(ctx, &mon, "rand", n_rand, |cc, rng, l| {
         let scn = Scn::random(rng, if cc.idx % 3 == 0 { 3 } else { 2 });
         let per = ctx.tier.pick(20, 70);
